@@ -3,8 +3,10 @@ import json,jsonschema,glob,sys
 m=json.load(open('/verif/MANIFEST.json'))
 jsonschema.validate(m,json.load(open('/root/.vp/MANIFEST.schema.json')))
 es=json.load(open('/root/.vp/EVIDENCE.schema.json'))
-for f in sorted(glob.glob('/verif/evidence/C*.json')):
-    jsonschema.validate(json.load(open(f)),es)
+for f in sorted(glob.glob('/verif/evidence/C[0-9][0-9].json')):
+    e=json.load(open(f)); jsonschema.validate(e,es)
+    assert e['coverage']['evaluations']>=1 and e['coverage']['distinct_nontrivial']>=2, (f, 'empty evidence: re-run the check before committing')
+    assert e.get('violations',0)==0, (f,'evidence of a run with violations')
 ids={c['property_id'] for c in m['checks']}|{n['property_id'] for n in m['not_applicable']}
 assert ids=={"C%02d"%i for i in range(1,21)}, ids
 print('manifest + evidence valid; claimed:',sorted(c['property_id'] for c in m['checks']))
